@@ -511,6 +511,18 @@ def run(ctx):
             want = float(w.real if hasattr(w, 'real') else w)
             R.both('POWER', args, want, 'elementary',
                    ('POWER', 'near-max', args), tol_ulp=16)
+        # whole-number operands (Python ints, as formulas and cells hold them)
+        # whose power passes 2^63: no wrap-around, #NUM! beyond the doubles
+        for args in ((10, 19), (2, 64), (3, 40), (2, 63), (-2, 63), (7, 30),
+                     (10, 308), (2, 1023)):
+            R.both('POWER', args, float(args[0]) ** args[1], 'elementary',
+                   ('POWER', 'int-operands', args), tol_ulp=16)
+            got = monitors.call_outcome(R.F['POWER'], *args)
+        for args in ((2, 1024), (10, 309), (16, 256)):
+            got = monitors.call_outcome(R.F['POWER'], *args)
+            R.judge('POWER', args, 'error', got, 'domain',
+                    ('POWER', 'int-overflow', args), 0, 'lib',
+                    ('outside-domain',))
         # integer powers whose exact value has millions of digits: the answer
         # (#NUM!) must come at once
         for args in ((10, 10 ** 10), (7, 10 ** 9), (-3, 10 ** 9 + 1),
